@@ -1,6 +1,7 @@
 package main
 
 import (
+	"sync"
 	"fmt"
 	"go/constant"
 	"go/token"
@@ -34,6 +35,8 @@ type Exec struct {
 	D    *Decls
 	Prop string // property filter for clauses ("" = all)
 	ghostWriters map[string]map[string]bool // model field -> contracts that may write it
+	bindings map[string]map[string]*BindDesc // pinned-tree descriptors of contract names (rename tolerance)
+	bindRec  map[string]map[string]*BindDesc // recorded during this run (when asked to)
 	immCells map[string]Val // address term of a write-once cell (parameter captured by a closure, never reassigned) -> its value
 	Mode string // "contract" | "sweep"
 
@@ -147,8 +150,22 @@ func newExec(P *Program, S *Specs, prop, mode string) *Exec {
 			}
 		}
 	}
+	ex.bindings = globalBindings
+	if globalBindRecOn {
+		ex.bindRec = map[string]map[string]*BindDesc{}
+		globalBindRecMu.Lock()
+		globalBindRecs = append(globalBindRecs, ex)
+		globalBindRecMu.Unlock()
+	}
 	return ex
 }
+
+var (
+	globalBindings  map[string]map[string]*BindDesc
+	globalBindRecOn bool
+	globalBindRecMu sync.Mutex
+	globalBindRecs  []*Exec
+)
 
 func newExec0(P *Program, S *Specs, prop, mode string) *Exec {
 	return &Exec{P: P, S: S, D: newDecls(), Prop: prop, Mode: mode, notes: map[string]bool{}, arrSorts: map[string]Sort{}, mapKeySort: map[string]Sort{}, mapPtrValued: map[string]bool{}, mapSliceValued: map[string]bool{},
